@@ -27,10 +27,65 @@ class Unknown:
 
 
 UNKNOWN = Unknown()
+# pure methods of str, applied to concrete text
+STR_METHODS = ('find', 'rfind', 'index', 'count', 'split', 'rsplit', 'strip', 'lstrip', 'rstrip', 'startswith', 'endswith', 'isdigit', 'isnumeric',
+               'isdecimal', 'isalpha', 'isalnum', 'isidentifier', 'lower', 'upper', 'partition', 'rpartition', 'title', 'capitalize',
+               'splitlines', 'removeprefix', 'removesuffix')
+
+
+class EvalRaise(Exception):
+    """the evaluated code raises a Python exception of this class name"""
+
+    def __init__(self, name):
+        Exception.__init__(self, name)
+        self.name = name
+
+
+class _Return(Exception):
+    def __init__(self, value):
+        self.value = value
+
+
+class _Continue(Exception):
+    pass
+
+
+class _Break(Exception):
+    pass
+
+
+def assigned_names(stmts):
+    out = set()
+    for s in stmts:
+        for n in ast.walk(s):
+            tg = []
+            if isinstance(n, ast.Assign):
+                tg = list(n.targets)
+            elif isinstance(n, (ast.AugAssign, ast.AnnAssign)):
+                tg = [n.target]
+            elif isinstance(n, ast.For):
+                tg = [n.target]
+            elif isinstance(n, ast.Call) and isinstance(n.func, ast.Attribute) and n.func.attr in ('append', 'extend', 'update', 'pop', 'insert', 'remove', 'clear', 'setdefault'):
+                tg = [n.func.value]
+            while tg:
+                t = tg.pop()
+                if isinstance(t, (ast.Tuple, ast.List)):
+                    tg = tg + list(t.elts)
+                    continue
+                if isinstance(t, ast.Starred):
+                    tg = tg + [t.value]
+                    continue
+                for m in ast.walk(t):
+                    if isinstance(m, ast.Name):
+                        out.add(m.id)
+                        break
+    return out
 
 
 class StrExec:
-    def __init__(self, env, tracked, hole_for_subscript=None, call_hook=None, frozen=()):
+    def __init__(self, env, tracked, hole_for_subscript=None, call_hook=None, frozen=(), functions=None, is_sub=False):
+        self.functions = functions or {}    # module-level helpers that calls are followed into
+        self.is_sub = is_sub
         self.frozen = set(frozen)
         self.env = dict(env)
         self.tracked = set(tracked)
@@ -38,12 +93,20 @@ class StrExec:
         self.call_hook = call_hook
         self.defs = {}      # name -> expression text that last defined it
         self.aborted = None
+        self.in_try = 0
+        self.finished = False
+        self.local_names = set()    # names that are local variables of the evaluated function: reading one before any store raises
+        self.returned = UNKNOWN
+        self.depth = 0
+        self.module_names = set()   # names of module-level constants present in env (visible inside helpers)
 
     # -- expressions
     def ev(self, n):
         if isinstance(n, ast.Constant):
             return n.value
         if isinstance(n, ast.Name):
+            if n.id not in self.env and n.id in self.local_names:
+                raise EvalRaise('UnboundLocalError')
             return self.env.get(n.id, UNKNOWN)
         if isinstance(n, ast.JoinedStr):
             parts = []
@@ -61,12 +124,17 @@ class StrExec:
             if a is UNKNOWN or b is UNKNOWN:
                 return UNKNOWN
             if isinstance(a, str) != isinstance(b, str):
+                other = b if isinstance(a, str) else a
+                if isinstance(other, (int, float, list, dict)) or other is None:
+                    raise EvalRaise('TypeError')        # text + number
                 return UNKNOWN
             return a + b
         if isinstance(n, ast.BinOp) and isinstance(n.op, (ast.Sub, ast.Mult)):
             a, b = self.ev(n.left), self.ev(n.right)
             if isinstance(a, (int, float)) and isinstance(b, (int, float)):
                 return a - b if isinstance(n.op, ast.Sub) else a * b
+            if isinstance(n.op, ast.Mult) and isinstance(a, list) and isinstance(b, int) and not isinstance(b, bool):
+                return list(a) * b
             return UNKNOWN
         if isinstance(n, ast.Subscript):
             if self.hole_for_subscript is not None:
@@ -83,8 +151,10 @@ class StrExec:
             base, idx = self.ev(n.value), self.ev(n.slice)
             if isinstance(base, (list, tuple, str)) and not isinstance(base, Hole) and isinstance(idx, int):
                 return base[idx] if -len(base) <= idx < len(base) else UNKNOWN
-            if isinstance(base, dict) and idx in base:
-                return base[idx]
+            if isinstance(base, dict) and idx is not UNKNOWN and not isinstance(idx, (list, dict)):
+                if idx in base:
+                    return base[idx]
+                raise EvalRaise('KeyError')
             return UNKNOWN
         if isinstance(n, ast.Call):
             if self.call_hook is not None:
@@ -128,12 +198,62 @@ class StrExec:
             if name in ('list', 'tuple') and len(n.args) == 1:
                 v = self.ev(n.args[0])
                 return list(v) if isinstance(v, (list, dict)) else UNKNOWN
+            if name in ('any', 'all') and len(n.args) == 1 and not n.keywords:
+                v = self.ev(n.args[0])
+                if not isinstance(v, list):
+                    return UNKNOWN
+                if name == 'any':
+                    if any(x is True for x in v):
+                        return True
+                    return UNKNOWN if any(x is UNKNOWN for x in v) else any(bool(x) for x in v)
+                if any(x is False for x in v):
+                    return False
+                return UNKNOWN if any(x is UNKNOWN for x in v) else all(bool(x) for x in v)
             if name == 'len' and len(n.args) == 1:
                 v = self.ev(n.args[0])
                 return len(v) if isinstance(v, (list, tuple, str, dict)) else UNKNOWN
             if name == 'range':
                 a = [self.ev(x) for x in n.args]
                 return list(range(*a)) if all(isinstance(x, int) for x in a) else UNKNOWN
+            if isinstance(n.func, ast.Name) and n.func.id in self.functions and not n.keywords:
+                return self.call_function(self.functions[n.func.id], [self.ev(a) for a in n.args])
+            if name in ('float', 'int') and len(n.args) == 1:
+                v = self.ev(n.args[0])
+                if v is UNKNOWN:
+                    return UNKNOWN
+                if isinstance(v, Hole):
+                    return UNKNOWN      # a model-supplied value: a number or a name
+                if isinstance(v, (list, dict)) or v is None:
+                    raise EvalRaise('TypeError')
+                try:
+                    return float(v) if name == 'float' else int(v)
+                except ValueError:
+                    raise EvalRaise('ValueError')
+            if isinstance(n.func, ast.Attribute) and n.func.attr in STR_METHODS + ('get',) and not n.keywords:
+                v = self.ev(n.func.value)
+                a = [self.ev(x) for x in n.args]
+                if v is UNKNOWN or any(x is UNKNOWN for x in a):
+                    return UNKNOWN
+                at = n.func.attr
+                if at == 'get' and isinstance(v, dict) and len(a) in (1, 2) and not isinstance(a[0], (list, dict)):
+                    return v.get(a[0], a[1] if len(a) == 2 else None)
+                if isinstance(v, str) and all(isinstance(x, str) for x in a):
+                    if isinstance(v, Hole):
+                        # a model-supplied identifier: it has no separator characters in it
+                        if at == 'split' and len(a) == 1 and not a[0].isidentifier():
+                            return [v]
+                        if at == 'strip' and not a:
+                            return v
+                        return UNKNOWN
+                    if at in STR_METHODS:
+                        try:
+                            r = getattr(str(v), at)(*a)
+                        except ValueError:
+                            raise EvalRaise('ValueError')
+                        except TypeError:
+                            return UNKNOWN
+                        return list(r) if isinstance(r, tuple) else r
+                return UNKNOWN
             if isinstance(n.func, ast.Attribute) and n.func.attr == 'replace' and len(n.args) == 2:
                 v = self.ev(n.func.value)
                 a, b = self.ev(n.args[0]), self.ev(n.args[1])
@@ -174,9 +294,9 @@ class StrExec:
         if isinstance(n, ast.UnaryOp) and isinstance(n.op, ast.USub):
             v = self.ev(n.operand)
             return -v if isinstance(v, (int, float)) else UNKNOWN
-        if isinstance(n, (ast.List, ast.Tuple)):
+        if isinstance(n, (ast.List, ast.Tuple, ast.Set)):
             return [self.ev(e) for e in n.elts]
-        if isinstance(n, (ast.ListComp, ast.GeneratorExp)) and len(n.generators) == 1 and not n.generators[0].ifs:
+        if isinstance(n, (ast.ListComp, ast.GeneratorExp)) and len(n.generators) == 1:
             g = n.generators[0]
             it = self.ev(g.iter)
             if isinstance(it, dict):
@@ -187,7 +307,12 @@ class StrExec:
             saved = dict(self.env)
             for v in it:
                 self.bind(g.target, v)
-                out.append(self.ev(n.elt))
+                conds = [self.ev(c) for c in g.ifs]
+                if any(c is UNKNOWN for c in conds):
+                    self.env = saved
+                    return UNKNOWN
+                if all(bool(c) for c in conds):
+                    out.append(self.ev(n.elt))
             self.env = saved
             return out
         if isinstance(n, ast.Dict):
@@ -219,11 +344,65 @@ class StrExec:
 
     def run(self, stmts):
         for s in stmts:
-            if self.aborted:
+            if self.aborted or self.finished:
                 return
-            self.stmt(s)
+            try:
+                self.stmt(s)
+            except EvalRaise as e:
+                if self.in_try or self.is_sub:
+                    raise
+                self.aborted = 'raises %s at `%s`' % (e.name, src(s)[:60])
+
+    def forget(self, stmts):
+        """what a skipped (undecidable) region may have assigned is unknown afterwards"""
+        for nm in assigned_names(stmts):
+            if nm not in self.frozen:
+                self.env[nm] = UNKNOWN
+
+    @staticmethod
+    def leaves(stmts):
+        return any(isinstance(n, (ast.Return, ast.Raise, ast.Continue, ast.Break)) for st in stmts for n in ast.walk(st))
+
+    def call_function(self, f, args):
+        """follow a call into a module-level helper: its body is evaluated on the argument values"""
+        params = [a.arg for a in f.args.args]
+        if len(args) > len(params) or f.args.vararg or f.args.kwarg:
+            return UNKNOWN
+        env = {k: v for k, v in self.env.items() if k in self.module_names}
+        defaults = f.args.defaults
+        for i, pn in enumerate(params):
+            if i < len(args):
+                env[pn] = args[i]
+            else:
+                j = i - (len(params) - len(defaults))
+                if j < 0:
+                    return UNKNOWN
+                env[pn] = self.ev(defaults[j])
+        sub = StrExec(env, tracked=assigned_names(f.body), hole_for_subscript=self.hole_for_subscript, call_hook=self.call_hook,
+                      functions=self.functions, is_sub=True)
+        sub.module_names = self.module_names
+        sub.local_names = assigned_names(f.body) - set(env)
+        sub.depth = self.depth + 1
+        if sub.depth > 4:
+            return UNKNOWN
+        try:
+            sub.run(f.body)
+        except _Return as r:
+            return r.value
+        except AnalysisError:
+            return UNKNOWN      # the helper's result depends on something the evaluator does not know
+        if sub.aborted:
+            raise EvalRaise('Exception')
+        return None
 
     def stmt(self, s):
+        if isinstance(s, ast.Assign) and len(s.targets) > 1 and all(isinstance(t, ast.Name) for t in s.targets):
+            v = self.ev(s.value)        # a = b = value
+            for t in s.targets:
+                if t.id not in self.frozen:
+                    self.env[t.id] = v
+                    self.defs[t.id] = src(s.value)
+            return
         if isinstance(s, ast.Assign) and len(s.targets) == 1 and isinstance(s.targets[0], ast.Name):
             if s.targets[0].id in self.frozen:
                 return
@@ -243,9 +422,10 @@ class StrExec:
         if isinstance(s, ast.If):
             t = self.ev(s.test)
             if t is UNKNOWN:
-                if self.writes_tracked(s.body) or self.writes_tracked(s.orelse):
+                if self.writes_tracked(s.body) or self.writes_tracked(s.orelse) or (self.is_sub and self.leaves(s.body + s.orelse)):
                     raise AnalysisError('a tracked string is written under a condition the template evaluator cannot decide: %s (line %s)'
                                         % (src(s.test), s.lineno))
+                self.forget(s.body + s.orelse)
                 return
             self.run(s.body if t else s.orelse)
             return
@@ -254,17 +434,82 @@ class StrExec:
             if isinstance(it, dict):
                 it = list(it)
             if it is UNKNOWN or not isinstance(it, (list, tuple)):
-                if self.writes_tracked(s.body):
+                if self.writes_tracked(s.body) or (self.is_sub and self.leaves(s.body)):
                     raise AnalysisError('a tracked string is written in a loop over an unknown sequence: %s (line %s)' % (src(s.iter), s.lineno))
+                self.forget([s])
                 return
             for v in it:
                 self.bind(s.target, v)
-                self.run(s.body)
+                try:
+                    self.run(s.body)
+                except _Continue:
+                    continue
+                except _Break:
+                    break
+                if self.aborted or self.finished:
+                    return
+            else:
+                self.run(s.orelse)
             return
         if isinstance(s, ast.Raise):
+            if self.in_try:
+                name = src(s.exc.func if isinstance(s.exc, ast.Call) else s.exc) if s.exc is not None else 'Exception'
+                raise EvalRaise(name.split('.')[-1])
             self.aborted = src(s)
             return
-        if isinstance(s, (ast.Expr, ast.Pass, ast.Import, ast.ImportFrom, ast.Return, ast.Assert)):
+        if isinstance(s, ast.Continue):
+            raise _Continue()
+        if isinstance(s, ast.Break):
+            raise _Break()
+        if isinstance(s, ast.Return):
+            if self.is_sub:
+                raise _Return(self.ev(s.value) if s.value is not None else None)
+            self.returned = self.ev(s.value) if s.value is not None else None
+            self.finished = True
+            return
+        if isinstance(s, ast.Try):
+            self.in_try += 1
+            try:
+                try:
+                    self.run(s.body)
+                finally:
+                    self.in_try -= 1
+            except EvalRaise as e:
+                for h in s.handlers:
+                    names = [] if h.type is None else [src(x).split('.')[-1] for x in (h.type.elts if isinstance(h.type, ast.Tuple) else [h.type])]
+                    if h.type is None or e.name in names or 'Exception' in names or 'BaseException' in names:
+                        if h.name:
+                            self.env[h.name] = UNKNOWN
+                        self.run(h.body)
+                        break
+                else:
+                    self.run(s.finalbody)
+                    raise
+            else:
+                self.run(s.orelse)
+            self.run(s.finalbody)
+            return
+        if isinstance(s, ast.Expr) and isinstance(s.value, ast.Call) and isinstance(s.value.func, ast.Attribute) \
+                and isinstance(s.value.func.value, ast.Name) and s.value.func.attr in ('append', 'extend', 'update', 'pop', 'insert', 'remove', 'clear', 'setdefault'):
+            c = s.value
+            nm = c.func.value.id
+            base = self.env.get(nm, UNKNOWN)
+            if nm in self.frozen or base is UNKNOWN:
+                return
+            if c.func.attr == 'append' and isinstance(base, list) and len(c.args) == 1:
+                base.append(self.ev(c.args[0]))
+                return
+            if c.func.attr == 'extend' and isinstance(base, list) and len(c.args) == 1 and isinstance(self.ev(c.args[0]), list):
+                base.extend(self.ev(c.args[0]))
+                return
+            if nm in self.tracked:
+                raise AnalysisError('cannot evaluate `%s` (line %s)' % (src(s), s.lineno))
+            self.env[nm] = UNKNOWN
+            return
+        if isinstance(s, ast.Expr) and isinstance(s.value, ast.Call):
+            self.ev(s.value)        # for the call hook; the value is dropped
+            return
+        if isinstance(s, (ast.Expr, ast.Pass, ast.Import, ast.ImportFrom, ast.Assert)):
             return
         if isinstance(s, ast.Assign) and len(s.targets) == 1 and isinstance(s.targets[0], ast.Subscript) and isinstance(s.targets[0].value, ast.Name):
             base = self.env.get(s.targets[0].value.id, UNKNOWN)
@@ -272,9 +517,23 @@ class StrExec:
             if isinstance(base, dict) and key is not UNKNOWN and not isinstance(key, (list, dict)):
                 base[key] = self.ev(s.value)     # item store into a dict built by this code
             return
+        if isinstance(s, ast.Assign) and len(s.targets) == 1 and isinstance(s.targets[0], (ast.Tuple, ast.List)):
+            v = self.ev(s.value)
+            names = [t.id for t in ast.walk(s.targets[0]) if isinstance(t, ast.Name) and t.id not in self.frozen]
+            if isinstance(v, (list, tuple)) and len(v) == len(s.targets[0].elts) and all(isinstance(t, ast.Name) for t in s.targets[0].elts):
+                for t, x in zip(s.targets[0].elts, v):
+                    if t.id not in self.frozen:
+                        self.env[t.id] = x
+            else:
+                if any(nm in self.tracked for nm in names):
+                    raise AnalysisError('cannot evaluate `%s` (line %s)' % (src(s)[:80], s.lineno))
+                for nm in names:
+                    self.env[nm] = UNKNOWN
+            return
         if isinstance(s, (ast.Assign, ast.AugAssign, ast.AnnAssign)):
+            self.forget([s])
             return      # other stores into attributes / subscripts are irrelevant to the tracked strings
-        if isinstance(s, (ast.While, ast.Try, ast.With)):
+        if isinstance(s, (ast.While, ast.With)):
             if self.writes_tracked([s]):
                 raise AnalysisError('tracked string written inside unsupported statement at line %s' % s.lineno)
             return
